@@ -168,6 +168,80 @@ def r07_9(ctx, rep):
     rep.floor("R07.9", "fields walked", n_fields, 10)
 
 
+BLOCKING_RX = (r"mpsc::(Sync)?Sender::<T>::send$|mpsc::Receiver::<T>::(recv|recv_timeout|iter)$|mpsc::Iter|thread::sleep$|thread::park|"
+               r"JoinHandle::<T>::join$|Condvar::wait|Barrier::wait|Callback::send$")
+LOCK_ACQ_RX = r"sync::(poison::)?(rwlock::)?RwLock::<T>::(write|read)$|sync::(poison::)?(mutex::)?Mutex::<T>::lock$"
+GUARD_TY = r"RwLockWriteGuard|RwLockReadGuard|MutexGuard"
+
+
+def r07_10(ctx, rep):
+    """R07.10 lock discipline: while a guard of the payload-cache lock is alive, a thread neither takes a lock again nor blocks on the other
+    thread (channel send/recv, sleep, join, user callback).  The cache lock is shared by every reader, every writer and the worker; std's
+    RwLock deadlocks on a re-entrant acquisition (read-read too, once a writer queues), and a thread that waits for the other one while holding
+    it closes a cycle with that thread's own acquisition.  Either way reads stop completing - dependent on worker progress, which C07 excludes."""
+    rep.rule("R07.10", "while a lock guard (payload cache) is alive no thread takes a lock again or waits for the other thread: no nested "
+                       "RwLock/Mutex acquisition, no channel send/recv, sleep, join or user callback between the acquisition and the drop of the "
+                       "guard, in any public operation, in open and in the worker (a cycle caller<->worker through the lock and the bounded "
+                       "channel, or a re-entrant read() behind a queued writer, makes reads hang)")
+    import c16
+    keys = [k for (k, _a) in c16.entries(ctx)]
+    keys.append(ctx.body_key(r"raft_log::RaftLog::<T>::open$"))
+    keys += ctx.body_key(DUMP_NEXT, unique=False)
+    wk, _, _ = ctx.worker_entry()
+    keys.append(wk)
+    n_acq = n_under = 0
+    bad = {}
+    for key in keys:
+        g = ctx.graph(key)
+        P = ctx.product(key)
+        locks = set(P.calls(LOCK_ACQ_RX))
+        if not locks:
+            continue
+        n_acq += len(locks)
+        name = "worker" if key == wk else ("read-closure" if re.search(READ_CL, key) else ("dump-iter" if re.search(DUMP_NEXT, key) else short_key(key).split("::")[-1]))
+
+        def is_guard_drop(n, g=g):
+            t = g.term(n)
+            if t["k"] == "drop" and re.search(GUARD_TY, t.get("ty", "") or ""):
+                return True
+            if t["k"] == "call" and n not in g.callee_inst and cmatch(t, r"mem::drop$") and re.search(GUARD_TY, str(t["callee"].get("gargs", ""))):
+                return True
+            return False
+
+        def step(ms, pi, qi, learn, P=P, locks=locks, is_guard_drop=is_guard_drop):
+            n = P.gnode(pi)
+            if n in locks:
+                return ms + 1 if ms < 3 else ms
+            if is_guard_drop(n):
+                return max(0, ms - 1)
+            return ms
+        seen = run_monitor(P, 0, step)
+        for (pi, ms) in seen:
+            n = P.gnode(pi)
+            if ms <= 0:
+                continue
+            t = g.term(n)
+            if n in locks:
+                ev = "nested-lock:" + cpath(t).split("::")[-1]
+            elif t["k"] == "call" and n not in g.callee_inst and cmatch(t, BLOCKING_RX) and not t.get("exp"):
+                ev = cpath(t).split("::")[-2].split("<")[0] + "::" + cpath(t).split("::")[-1]
+            else:
+                n_under += 1
+                continue
+            k = "%s|%s-under-lock" % (name, ev)
+            if k not in bad:
+                bad[k] = (g, n, ev, name, describe_path(P, [k_[0] for k_ in path_to(seen, (pi, ms))]))
+    for k, (g, n, ev, name, path) in sorted(bad.items()):
+        rep.violation("R07.10", k, "%s: %s while a lock guard is alive" % (name, ev),
+                      "%s reaches `%s` between acquiring and dropping a lock guard: a re-entrant acquisition deadlocks std's RwLock as soon as a "
+                      "writer (the worker's boundary update / an append) queues in between, and waiting for the other thread while holding the "
+                      "cache lock closes a cycle with that thread's own acquisition - reads then hang on worker progress" % (name, ev),
+                      where=g.where(n), path=path)
+    if not bad:
+        rep.ok("R07.10", "lock regions of %d entries" % len(keys), "%d acquisition site(s); %d product state(s) under a guard, none blocks or re-acquires" % (n_acq, n_under))
+    rep.floor("R07.10", "lock acquisitions examined", n_acq, 8)
+
+
 def run(ctx, rep):
     rep.rule("R07.1", "= R15.6: every eviction is preceded by `first key <= last_evictable`")
     rep.rule("R07.2", "in the worker the eviction boundary is written only when no older file is left unsynced (len<=1 established, no push since), "
@@ -226,6 +300,41 @@ def run(ctx, rep):
             else:
                 rep.ok("R07.2", "worker: last_evictable := files[0].prev_last_log_id", "only when no older file is listed (len <= 1 established)",
                        where=g.where(n, si))
+    # (c) the boundary follows every chunk switch: once the worker has pushed a new file and completed a sync of it (all older files synced
+    #     and dropped), it has written the boundary again before it waits for the next request - on EVERY such path (a `only if it grows`
+    #     guard keeps a stale, too high boundary after a truncation lowered `last` between two rotations)
+    wset_ = set(writes)
+    sync_set = set(g.call_nodes(c04.SYNC_RX))
+    recvs = set(P.calls(r"mpsc::Receiver::<T>::recv$"))
+    rep.floor("R07.2", "blocking recv events in the worker", len(recvs), 1)
+
+    def step_c(ms, pi, qi, learn):
+        synced, fresh, le1 = ms
+        n = P.gnode(pi)
+        if n in push_set:
+            synced, fresh = False, False
+        if n in mut_set and not cmatch(g.term(n), r"IndexMut<I>>::index_mut$"):
+            le1 = False
+        if n in wset_:
+            fresh = True
+        for o, v in norm_learn(learn):
+            if c04.len_le1_fact(g, o, v):
+                le1 = True
+            cn = origin_call(o)
+            if cn in sync_set and v in OKV and (c04.is_sync_of_last(g, cn) or (c04.is_sync_of_index(g, cn, 0) and le1)):
+                synced = True
+        return (synced, fresh, le1)
+    seen_c = run_monitor(P, (True, True, False), step_c)
+    bad_c = next(((pi, ms) for (pi, ms) in seen_c if P.gnode(pi) in recvs and ms[0] and not ms[1]), None)
+    if bad_c:
+        rep.violation("R07.2", "worker|chunk-switch-synced-without-installing-boundary", "worker: AppendFile ... sync Ok ... recv",
+                      "after a new chunk file was appended and successfully synced, the worker can wait for its next request without having "
+                      "written the eviction boundary of that file: the boundary of an EARLIER chunk stays in force, and when `last` was lowered "
+                      "by a truncation in between it is too high - entries of the open chunk become evictable and read() fails with 'Chunk not found'",
+                      where=g.where(P.gnode(bad_c[0])), path=describe_path(P, [k[0] for k in path_to(seen_c, bad_c)]))
+    else:
+        rep.ok("R07.2", "worker: every completed sync of a newly appended file is followed by a boundary write before the next recv",
+               "%d product states" % len(seen_c), where=g.where(sorted(recvs)[0]) if recvs else "")
     # the setter(s): every &mut method of PayloadCache that assigns last_evictable assigns its argument on every path
     setters = 0
     for key in ms_:
@@ -386,6 +495,7 @@ def run(ctx, rep):
 
     # ---------------- R07.9 -------------------------------------------------------------
     r07_9(ctx, rep)
+    r07_10(ctx, rep)
 
     # ---------------- R07.6 -------------------------------------------------------------
     shared_cones = [ctx.body_key(READ_CL), ctx.body_key(DUMP_NEXT), ctx.body_key(r"RaftLog::<T>::stat$"), ctx.body_key(r"RaftLog::<T>::dump_data$"), wk]
